@@ -23,7 +23,7 @@ FINISH = dict(
          "Spec.C09.holds (bracket ret[i+n] - call[i] >= period) and the progress bound are evaluated on "
          "the observed instants. (iii) real issuances (two identifiers, retries, polls, nonce fetches) through "
          "an endpoint with a rate limit: the arrival times of ALL requests at the mock CA obey the same "
-         "bracket with 40 % latency slack (a call site that skips the limiter shows gaps of milliseconds). py/ext/c09x.py: n = 0, zero / multi-part / h-d-w periods and equal periods spelt differently in (i); in (iii) several failing attempts inside one window, endpoints with two or three limits attached by the configuration (both name orders), two endpoints with their own limits and two accounts, re-registration / contact update / key roll-over POSTs, three certificates contending with retries, nonce fetches and a cut connection. distinct = distinct canonical cases; non-trivial = log non-empty or "
+         "bracket with 40 % latency slack (a call site that skips the limiter shows gaps of milliseconds). py/ext/c09x.py: n = 0, zero / multi-part / h-d-w periods and equal periods spelt differently in (i); in (iii) several failing attempts inside one window, endpoints with two or three limits attached by the configuration (both name orders), two endpoints with their own limits and two accounts, re-registration / contact update / key roll-over POSTs, three certificates contending with retries, nonce fetches and a cut connection, repeated transport faults (more than n requests of one period read by the server, then the connection closed or reset without an answer, at the directory GET and at POSTs, two or three certificates whose failing attempts follow one another, 2 per 8 s / 3 per 6 s). distinct = distinct canonical cases; non-trivial = log non-empty or "
          "more than n calls.",
 )
 
